@@ -32,7 +32,9 @@ rundemo() { # $1 = label
   local names race=""
   names=$(grep -oh '^func Test[A-Za-z0-9_]*' "$demo" | sed 's/^func //' | paste -sd'|')
   grep -qs 'must be run with `-race`\|under `-race`\|go test -race\|with -race' "$dir/README.md" "$demo" && ! grep -qs 'not run it with `-race`\|Do not run it with `-race`' "$dir/README.md" && race="-race"
-  ( cd "$W/$demopkg" && timeout 900 go test -count=1 -vet=off $race -run "^(${names})\$" . ) > "$dir/eval/demo_$1.log" 2>&1
+  local tags=""
+  grep -qs -- '-tags verif' "$dir/README.md" "$demo" && tags="-tags verif"
+  ( cd "$W/$demopkg" && timeout 900 go test -count=1 -vet=off $race $tags -run "^(${names})\$" . ) > "$dir/eval/demo_$1.log" 2>&1
   rc=$?
   rm -f "$W/$demopkg/zz_seed_demo_test.go"
   return $rc
